@@ -172,6 +172,8 @@ type RegCall struct {
 	Bool  bool   `json:"b,omitempty"`   // result of inC
 	Depth int    `json:"d,omitempty"`   // nesting depth of creations at the time of the call
 	Raw   int    `json:"raw,omitempty"` // small id of Meta.Raw's address
+	// Proxy: the returned definition stands for another one (a version created by wrapping)
+	Proxy bool `json:"px,omitempty"`
 }
 
 type Tracer struct {
@@ -213,6 +215,9 @@ func (t *Tracer) ref(m *component_definition.Meta) (int, int) {
 }
 
 func (t *Tracer) rec(c RegCall) {
+	if m := t.Metas[c.Ref]; m != nil && m.ProxyMeta != nil {
+		c.Proxy = true
+	}
 	c.Seq = t.C.Log("reg:"+c.Op, c.Name, "")
 	c.Depth = t.depth
 	t.Calls = append(t.Calls, c)
